@@ -49,14 +49,14 @@ def scratch_classes(facts, ks, reach):
     return out
 
 
-def isolation(facts, res, ks, reach, scratch):
-    R = "C05.1.copies-isolated"
-    edges = ks.holders(K)
+def isolation(facts, res, ks, reach, scratch, kernel=None, R="C05.1.copies-isolated"):
+    kernel = kernel or K
+    edges = ks.holders(kernel)
     n = 0
     # path kinds from the kernel to every class
-    kinds = {K: []}
-    todo = [K] + ks.bases(K)
-    for b in ks.bases(K):
+    kinds = {kernel: []}
+    todo = [kernel] + ks.bases(kernel)
+    for b in ks.bases(kernel):
         kinds[b] = []
     while todo:
         c = todo.pop()
@@ -78,9 +78,10 @@ def isolation(facts, res, ks, reach, scratch):
         res.instance(R, "scratch of %s" % c, tbf.rel(facts.path_of(members[next(iter(members))][0][0])),
                      "%s written by %s; held through %s" % (sorted(members), sorted(set(m["name"] for evs in members.values() for m, _e in evs)), [repr(h) for h in (path or [])]))
         if path is None:
-            if c == K or c in ks.bases(K):
-                continue        # the kernel's own members: one per copy by construction
-            raise AnalysisBroken("%s: how the kernel holds it was not found in the ownership graph" % c)
+            if c == kernel or c in ks.bases(kernel):
+                path = []       # the kernel's own members: one per copy, provided the copy constructor does not share what they point to
+            else:
+                raise AnalysisBroken("%s: how the kernel holds it was not found in the ownership graph" % c)
         for h in path:
             if h.kind != "value":
                 ev = members[next(iter(members))][0]
